@@ -25,6 +25,8 @@ func main() {
 		runSpice(*tier, *seed, *summary, *out)
 	case "wallet":
 		runWallet(*tier, *seed, *summary, *out)
+	case "tamper":
+		runTamper(*tier, *seed, *summary, *out)
 	default:
 		fmt.Fprintln(os.Stderr, "unknown mode", mode)
 		os.Exit(2)
